@@ -82,3 +82,20 @@ Theorem C20_tables_nonempty :
   List.length public_functions = 12 /\ 20 <= List.length class_table /\
   compared checker_methods 6 "check_entity_equal" <> [].
 Proof. exact tables_nonempty. Qed.
+
+(* A step set to FAILED stays FAILED: in each of the six comparing functions every handler around the data
+   checker's call ends the function ([compare_handler_returns], regenerated from the sources), so after a refusal
+   of the checker the comparing step is FAILED and the overall status is at least FAILED, whatever the checks
+   collected before the refusal say ... *)
+Theorem C20_failed_step_kept : forall f (m : manager) st failed passed,
+  In f comparing_functions ->
+  let m' := refusal_flow (match fassoc f compare_handler_returns with Some b => b | None => false end)
+                         failed passed (m ++ [st])%list in
+  last_status m' = Some FAILED /\ rank FAILED <= rank (overall m').
+Proof. exact refusal_keeps_failed. Qed.
+
+(* ... and without that `return` the report of a refusal after passed checks would be SUCCESS. *)
+Theorem C20_failed_step_lost_without_return :
+  last_status (refusal_flow false 0 3 [mk_step NOT_EXECUTED 0]) = Some SUCCESS /\
+  overall (refusal_flow false 0 3 [mk_step NOT_EXECUTED 0]) = SUCCESS.
+Proof. exact refusal_without_return_loses_failed. Qed.
